@@ -253,7 +253,7 @@ macro_rules! p1_array {
 			} else {
 				assert!(same_size(got, want), "C13:array-size-decision");
 			}
-			assert!(sizes.len() == pre + 1 + pushes, "C13:array-sizes-slots");
+			assert!(sizes.len() == pre + 1 + pushes, "C04+C13:array-sizes-slots");
 			assert!(same_size(sizes[pre], want), "C13:array-size-recorded-at-own-slot");
 			kani::cover!(want.is_none() && one_line.is_some());
 			kani::cover!(want.is_some());
@@ -317,7 +317,7 @@ macro_rules! p1_object {
 			} else {
 				assert!(same_size(got, want), "C13:object-size-decision");
 			}
-			assert!(sizes.len() == pre + 1 + pushes, "C13:object-sizes-slots");
+			assert!(sizes.len() == pre + 1 + pushes, "C04+C13:object-sizes-slots");
 			assert!(same_size(sizes[pre], want), "C13:object-size-recorded-at-own-slot");
 			kani::cover!(want.is_none() && one_line.is_some());
 			kani::cover!(want.is_some());
@@ -545,12 +545,12 @@ macro_rules! p2_array {
 			let mut i = 0;
 			while i < K {
 				assert!(children[i].calls.get() == 1, "C13:array-child-printed-once");
-				assert!(children[i].seen_index.get() == next, "C13:array-child-size-index");
+				assert!(children[i].seen_index.get() == next, "C04+C13:array-child-size-index");
 				assert!(children[i].seen_indent.get() == indent + 1, "C13:array-child-depth");
 				next += children[i].consumes;
 				i += 1;
 			}
-			assert!(end.get() == next, "C13:array-consumes-own-slot-plus-children");
+			assert!(end.get() == next, "C04+C13:array-consumes-own-slot-plus-children");
 			kani::cover!(expanded);
 			kani::cover!(!expanded);
 		}
@@ -608,12 +608,12 @@ macro_rules! p2_object {
 			let mut i = 0;
 			while i < K {
 				assert!(children[i].calls.get() == 1, "C13:object-child-printed-once");
-				assert!(children[i].seen_index.get() == next, "C13:object-child-size-index");
+				assert!(children[i].seen_index.get() == next, "C04+C13:object-child-size-index");
 				assert!(children[i].seen_indent.get() == indent + 1, "C13:object-child-depth");
 				next += children[i].consumes;
 				i += 1;
 			}
-			assert!(end.get() == next, "C13:object-consumes-own-slot-plus-children");
+			assert!(end.get() == next, "C04+C13:object-consumes-own-slot-plus-children");
 			kani::cover!(expanded);
 			kani::cover!(!expanded);
 		}
@@ -790,34 +790,138 @@ c08_compact_level!(c08_compact_array_k2, false, 2);
 c08_compact_level!(c08_compact_object_k0, true, 0);
 c08_compact_level!(c08_compact_object_k2, true, 2);
 
-pub const SPELLINGS: [&[u8]; 8] = [b"0", b"-0", b"1", b"-12", b"1.50", b"1E+2", b"0e-1", b"100000000000001"];
+pub const SPELLINGS: [&[u8]; 8] = [b"0", b"-0", b"1", b"-12", b"1.50", b"1E+2", b"0e-1", b"10000001"];
 
 /// Scalars print as their token under every option record and through every
-/// printing entry point (`Display`, `compact_print`, `print_with`).
+/// printing entry point (`Display`, `compact_print`, `print_with`). One
+/// harness per variant (the variant is concrete, its payload symbolic).
+macro_rules! c08_scalar {
+	($name:ident, $unwind:expr, $t:expr) => {
+		#[cfg(kani)]
+		#[kani::proof]
+		#[kani::unwind($unwind)]
+		#[kani::stub(smallvec::SmallVec::try_grow, crate::util::no_grow)]
+		fn $name() {
+			use json_syntax::{NumberBuf, Print, Value};
+			const T: u8 = $t;
+			let c: char = kani::any();
+			let k: usize = kani::any();
+			kani::assume(k < 8);
+			let b: bool = kani::any();
+			let mut want = Sink::<2>::new();
+			let v = match T {
+				0 => {
+					want.push_all(b"null");
+					Value::Null
+				}
+				1 => {
+					want.push_all(if b { b"true" } else { b"false" });
+					Value::Boolean(b)
+				}
+				2 => {
+					want.push_all(SPELLINGS[k]);
+					Value::Number(unsafe { NumberBuf::new_unchecked(smallvec::SmallVec::from_slice(SPELLINGS[k])) })
+				}
+				_ => {
+					ref_string_literal(&[c], &mut want);
+					let mut s = json_syntax::String::new();
+					s.push(c);
+					Value::String(s)
+				}
+			};
+			let mut d = Sink::<2>::new();
+			write!(d, "{}", v).unwrap();
+			assert!(d.same_as(&want), "C08:display-is-the-compact-token");
+			let mut p = Sink::<2>::new();
+			write!(p, "{}", v.compact_print()).unwrap();
+			assert!(p.same_as(&want), "C08:compact-print-is-the-compact-token");
+			let mut q = Sink::<2>::new();
+			write!(q, "{}", v.print_with(sym_options(3, 3, 24))).unwrap();
+			assert!(q.same_as(&want), "C13:options-never-reach-scalars");
+			let mut sizes = Vec::new();
+			let s = v.pre_compute_size(&sym_options(3, 3, 24), &mut sizes);
+			assert!(width_of(s) == Some(if T >= 3 { 2 + ref_escape_width(c) } else { want.len }) && sizes.len() == 0, "C13:scalar-width-is-printed-width");
+			kani::cover!(T != 2 || k == 7);
+			kani::cover!(T != 3 || c == '\u{1f}');
+			kani::cover!(T != 1 || b);
+			core::mem::forget(v);
+			core::mem::forget(sizes);
+		}
+	};
+}
+
+c08_scalar!(c08_scalar_null, 7, 0);
+c08_scalar!(c08_scalar_bool, 7, 1);
+c08_scalar!(c08_scalar_number, 10, 2);
+c08_scalar!(c08_scalar_string, 8, 3);
+
+/// A `fmt::Write` sink that only counts: bytes written, and whether every
+/// byte was `expect` (no buffer: the indentation harness writes up to 96 bytes).
+pub struct CountSink {
+	pub len: usize,
+	pub bad: bool,
+	pub expect: u8,
+}
+
+impl core::fmt::Write for CountSink {
+	fn write_str(&mut self, s: &str) -> core::fmt::Result {
+		let b = s.as_bytes();
+		let mut i = 0;
+		while i < b.len() {
+			if b[i] != self.expect {
+				self.bad = true;
+			}
+			i += 1;
+		}
+		self.len += b.len();
+		Ok(())
+	}
+}
+
+/// The indentation of a line is depth x unit, for every unit and depth (not
+/// only the small ones the layout harnesses use): `Indent::by(depth)` writes
+/// exactly `n * depth` copies of the unit character.
 #[cfg(kani)]
 #[kani::proof]
-#[kani::unwind(17)]
+#[kani::unwind(26)]
+fn c13_indent_is_depth_times_unit() {
+	use json_syntax::print::Indent;
+	let n: u8 = kani::any();
+	let depth: usize = kani::any();
+	let tabs: bool = kani::any();
+	kani::assume(n <= 24 && depth <= 4);
+	let unit = if tabs { Indent::Tabs(n) } else { Indent::Spaces(n) };
+	let mut out = CountSink {
+		len: 0,
+		bad: false,
+		expect: if tabs { b'\t' } else { b' ' },
+	};
+	write!(out, "{}", unit.by(depth)).unwrap();
+	assert!(!out.bad && out.len == (n as usize) * depth, "C13:indentation-is-depth-times-the-indent-unit");
+	kani::cover!((n as usize) * depth > 64);
+	kani::cover!(tabs && n == 2 && depth == 3);
+}
+
+/// `String::from(Value)` (and `Into<String>`) is the compact serialization:
+/// for every one-character string value it yields exactly the escaped literal
+/// that `Display` / `compact_print` yield.
+#[cfg(kani)]
+#[kani::proof]
+#[kani::unwind(10)]
 #[kani::stub(smallvec::SmallVec::try_grow, crate::util::no_grow)]
-fn c08_scalars_print_as_their_token() {
-	use json_syntax::{NumberBuf, Print, Value};
-	let t: u8 = kani::any();
+fn c08_string_from_value_is_compact() {
+	use json_syntax::Value;
 	let c: char = kani::any();
-	let k: usize = kani::any();
-	kani::assume(k < 8);
-	let mut want = Sink::<3>::new();
+	let t: u8 = kani::any();
+	let mut want = Sink::<2>::new();
 	let v = match t {
 		0 => {
 			want.push_all(b"null");
 			Value::Null
 		}
 		1 => {
-			let b: bool = kani::any();
-			want.push_all(if b { b"true" } else { b"false" });
-			Value::Boolean(b)
-		}
-		2 => {
-			want.push_all(SPELLINGS[k]);
-			Value::Number(unsafe { NumberBuf::new_unchecked(smallvec::SmallVec::from_slice(SPELLINGS[k])) })
+			want.push_all(b"true");
+			Value::Boolean(true)
 		}
 		_ => {
 			ref_string_literal(&[c], &mut want);
@@ -826,21 +930,15 @@ fn c08_scalars_print_as_their_token() {
 			Value::String(s)
 		}
 	};
-	let mut d = Sink::<3>::new();
-	write!(d, "{}", v).unwrap();
-	assert!(d.same_as(&want), "C08:display-is-the-compact-token");
-	let mut p = Sink::<3>::new();
-	write!(p, "{}", v.compact_print()).unwrap();
-	assert!(p.same_as(&want), "C08:compact-print-is-the-compact-token");
-	let mut q = Sink::<3>::new();
-	write!(q, "{}", v.print_with(sym_options(3, 3, 24))).unwrap();
-	assert!(q.same_as(&want), "C13:options-never-reach-scalars");
-	let mut sizes = Vec::new();
-	let s = v.pre_compute_size(&sym_options(3, 3, 24), &mut sizes);
-	assert!(width_of(s) == Some(if t >= 3 { 2 + ref_escape_width(c) } else { want.len }) && sizes.len() == 0, "C13:scalar-width-is-printed-width");
-	kani::cover!(t == 2 && k == 7);
-	kani::cover!(t == 3 && c == '\u{1f}');
-	kani::cover!(t == 1);
-	core::mem::forget(v);
-	core::mem::forget(sizes);
+	let got: std::string::String = v.into();
+	let g = got.as_bytes();
+	assert!(g.len() == want.len, "C08:string-from-value-is-the-compact-serialization");
+	let j: usize = kani::any();
+	if j < g.len() && j < want.len {
+		assert!(g[j] == want.byte(j), "C08:string-from-value-is-the-compact-serialization");
+	}
+	kani::cover!(t >= 2 && c == '"');
+	kani::cover!(t >= 2 && c == '\u{1f}');
+	kani::cover!(t == 0);
+	core::mem::forget(got);
 }
